@@ -394,6 +394,27 @@ def shrink(case):
             yield [[r[0], r[1][:i] + r[1][i + 1:]] + r[2:], ca, sf, wc]
 
 
+# ---------------------------------------------------------------- the source-level tie (tools/py2coq_c05.py)
+
+
+def extra_obligations(tier):
+    """send_http_start and send_http_body of baize/asgi/helper.py (the single place that builds the ASGI response messages)
+    are translated, one by one, from the source in BAIZE_REPO as it is now into the monad of C05/PyLib.v (statement by
+    statement: `await send(m)` = srv_send m, a dict display = dict_lit, d["k"] = v = dict_set, `headers is not None` = a
+    match on the option), and coqc re-checks, per function, the part of C05/Translated.v about it against the fresh
+    definitions: for every status, header list or None, body, flag and send budget the function runs as one send of the
+    model's message (same outcome, same entries, read by the harness's send() as Start st (hs or []) / Body b more), and,
+    from the translated definition itself, the start message has type http.response.start, the status given and a
+    "headers" key iff headers were given, the body message exactly the bytes and flag given.  C05/PyLib.v's dict is
+    compared with the interpreter's.  A source the translator refuses is not applicable (None)."""
+    import importlib.util
+    import os
+    spec = importlib.util.spec_from_file_location("py2coq_c05", os.path.join(core.VERIF, "tools", "py2coq_c05.py"))
+    py2coq_c05 = importlib.util.module_from_spec(spec)
+    spec.loader.exec_module(py2coq_c05)
+    return py2coq_c05.obligations(core.REPO, core.VERIF)
+
+
 if __name__ == "__main__":
     import sys
     core.main(sys.modules[__name__])
